@@ -132,11 +132,11 @@ func nsGenWorld(rt *rapid.T, s *nsSim, o nsWorldOpts) *nsWorld {
 		w.specs = append(w.specs, sp)
 		return sp
 	}
-	if rapid.Float64Range(0, 1).Draw(rt, "hasLH") < o.lighthouse {
+	if o.lighthouse >= 1 || (o.lighthouse > 0 && rapid.Float64Range(0, 1).Draw(rt, "hasLH") < o.lighthouse) {
 		w.lhIdx = len(w.specs)
 		add("lh", nsLighthouse, nsHonest)
 	}
-	if rapid.Float64Range(0, 1).Draw(rt, "hasRelay") < o.relay {
+	if o.relay >= 1 || (o.relay > 0 && rapid.Float64Range(0, 1).Draw(rt, "hasRelay") < o.relay) {
 		w.relayIdx = len(w.specs)
 		add("relay", nsRelay, nsHonest)
 	}
